@@ -25,7 +25,7 @@ func (self AnalyzedSingletonTypeDefinition) Kind() AnalyzedStatementKind {
 }
 func (self AnalyzedSingletonTypeDefinition) Span() errors.Span { return self.Range }
 func (self AnalyzedSingletonTypeDefinition) String() string {
-	return fmt.Sprintf("%s\n%s", self.Ident.Ident(), self.SingletonType)
+	return fmt.Sprintf("%s = %s;", self.Ident.Ident(), self.SingletonType)
 }
 
 func (self AnalyzedSingletonTypeDefinition) Type() Type { return self.SingletonType }
